@@ -1385,6 +1385,52 @@ def _fixture(chk):
     chk.instance("E4-site", "fixture: %d positive/negative examples classified as expected" % len(expect), nontrivial=False)
 
 
+def run_isolation(repo, chk):
+    """seed-driven clauses: the loader never mutates the caller's configuration; the export is not value-filtered"""
+    chk.rule("D-copy", "DecayConfig.load_config hands out a deep copy of a dict it is given (the include machinery updates nested entries of what it returns in place; a shallow copy lets one configuration's overrides leak into the shared table and into later loads)")
+    chk.rule("D-export", "as_config writes its option keys unconditionally (no filtering by truthiness: c_break defaults to True, so dropping a False value changes the selection rules on re-import)")
+    lc = repo.fn(DEC + "::DecayConfig.load_config")
+    inc = repo.fn(DEC + "::DecayConfig._do_include_dict")
+    mutates = any(
+        isinstance(n, ast.Call) and isinstance(n.func, ast.Attribute) and n.func.attr in ("update", "setdefault", "pop") and isinstance(n.func.value, ast.Subscript)
+        for n in walk_local(inc.node)
+    ) or any(isinstance(n, ast.Assign) and isinstance(n.targets[0], ast.Subscript) and isinstance(n.targets[0].value, ast.Subscript) for n in walk_local(inc.node))
+    ret_ok = None
+    param = lc.all_param_names()[0]
+    for n in walk_local(lc.node):
+        if isinstance(n, ast.If) and "isinstance(%s, dict)" % param in norm_text(n.test):
+            for r in [x for st in n.body for x in ast.walk(st) if isinstance(x, ast.Return)]:
+                v = r.value
+                deep = isinstance(v, ast.Call) and norm_text(v.func).split(".")[-1] in ("deepcopy", "simple_deepcopy") and v.args and norm_text(v.args[0]) == param
+                deep = deep or (isinstance(v, ast.Call) and norm_text(v.func) in ("json.loads", "yaml.safe_load") and v.args and isinstance(v.args[0], ast.Call) and param in norm_text(v.args[0]))
+                ret_ok = deep
+                ret_text = norm_text(v)
+    if ret_ok is None:
+        raise AnalysisError("DecayConfig.load_config: dict branch not found")
+    chk.instance("D-copy", "load_config(dict) returns `%s` (deep copy: %s); _do_include_dict updates nested entries in place: %s" % (ret_text, ret_ok, mutates))
+    if mutates and not ret_ok:
+        chk.violation("D-copy", lc.key, "dict-branch", "load_config returns `%s` for a dict argument - not a deep copy - while _do_include_dict updates nested entries of the result in place: overrides leak into the caller's / shared configuration and later loads differ" % ret_text, file=DEC, line=lc.lineno)
+    # export not filtered by value
+    n = 0
+    PAR = "tf_pwa/particle.py"
+    for key in (PAR + "::BaseParticle.as_config", PAR + "::BaseDecay.as_config", PAR + "::DecayGroup.as_config"):
+        f = repo.fn(key)
+        bad = None
+        for x in walk_local(f.node):
+            if isinstance(x, (ast.DictComp, ast.ListComp, ast.GeneratorExp)) and any(g.ifs for g in x.generators):
+                # a filter on the *values* of the exported mapping
+                for g in x.generators:
+                    if g.ifs and ("items()" in norm_text(g.iter) or "values()" in norm_text(g.iter)):
+                        bad = x
+            if isinstance(x, ast.If) and any(isinstance(y, ast.Delete) or (isinstance(y, ast.Call) and isinstance(y.func, ast.Attribute) and y.func.attr == "pop") for st in x.body for y in ast.walk(st)):
+                bad = x
+        n += 1
+        chk.instance("D-export", "%s: option values exported unconditionally: %s" % (key, bad is None))
+        if bad is not None:
+            chk.violation("D-export", key, "filtered", "the exported mapping is filtered by value (`%s`): an option whose value is falsy but differs from its default (c_break: False) is dropped and the re-imported structure applies other selection rules" % norm_text(bad)[:100], file=PAR, line=bad.lineno)
+    chk.require_count("D-export", 3)
+
+
 def run(repo, chk, tier):
     chk.rule(
         "E4",
@@ -1404,4 +1450,5 @@ def run(repo, chk, tier):
     run_order(repo, chk)
     run_alias(repo, chk)
     run_export(repo, chk)
+    run_isolation(repo, chk)
     _fixture(chk)
